@@ -69,8 +69,7 @@ func (cr *cursor) ruleLB30ab(breakOp *breakOpportunity) {
 		*breakOp = breakProhibited
 	}
 	// [\p{Extended_Pictographic}&\p{Cn}] × EM
-	if unicode.Is(ucd.Extended_Pictographic, cr.prev) && ucd.LookupType(cr.prev) == nil &&
-		cr.line == ucd.BreakEM {
+	if cr.isPrevLineExtPictCn && cr.line == ucd.BreakEM {
 		*breakOp = breakProhibited
 	}
 }
@@ -429,11 +428,13 @@ func (cr *cursor) endIteration(isStart bool) {
 			cr.prevLine == ucd.BreakZW
 		if isStart || isLB10 { // Rule LB10
 			cr.prevLine = ucd.BreakAL
+			cr.isPrevLineExtPictCn = false
 		} // else rule LB9 : ignore the rune for prevLine and prevPrevLine
 
 	} else { // regular update
 		cr.prevPrevLine = cr.prevLine
 		cr.prevLine = cr.line
+		cr.isPrevLineExtPictCn = cr.isExtentedPic && ucd.LookupType(cr.r) == nil
 	}
 
 	// keep track of the rune before the spaces
